@@ -32,7 +32,9 @@ MANIFEST = dict(
          "cache is reused unless an errored result is listed in front of it (C11_refuted_errored_shadow, known "
          "finding F11b). The leftover-directory shadowing (F11) was repaired in /repo and is covered by C11_reuse. "
          "The model is tied to the code on every run by differential execution of generated histories.",
-    note="partial: concurrent submitters are C10's; workflow node identities are a fixed list per workflow identity "
+    note="partial: concurrent submitters are C10's; the model is the sequential expansion — a quarter of the generated "
+         "submissions run under the cf worker (expand_workflow_async, nested workflows in process), without failing "
+         "bodies, and are compared with the model up to the order of independent nodes; workflow node identities are a fixed list per workflow identity "
          "(lazy inputs resolve deterministically); trusted: Coq kernel + vm_compute, the hand-written model, "
          "TaskHooks as the observation of executions, the harness's classification of a job directory.",
     technique="Coq proof (invariant of Job.run by induction over task trees and histories) + model/impl "
@@ -53,8 +55,9 @@ ASSUMPTIONS = [
     "task trees are well formed: no node has the identity of a workflow enclosing it (wf_taskb)",
     "distinct pool tasks have distinct checksums (checked at run time by the driver)",
 ]
-RULE = ("random histories of 3-8 steps over a pool of 4 python tasks + 3 workflows (one nested) sharing node "
-        "identities, 3 cache locations used as root or read-only cache, rerun / propagate_rerun flags, bodies failing "
+RULE = ("random histories of 3-8 steps over a pool of 4 python tasks + 3 workflows (one with a nested workflow) sharing "
+        "node identities, run under the debug worker and (25%) the cf worker, 3 cache locations used as root or "
+        "read-only cache, rerun / propagate_rerun flags, bodies failing "
         "at chosen steps, planted empty / job-only / zero-size-result directories; a step counts as non-trivial when "
         "the store before it is non-empty and it is a submission; distinct = distinct (pre-store, submission, "
         "failing set)")
@@ -318,8 +321,9 @@ def _run_history(h, build, hooks, logf, flagdir, base):
                     outs = task(cache_root=root, readonly_caches=ro or None, rerun=step["rerun"], hooks=hooks)
                     errored = False
                 else:
-                    with Submitter(worker="debug", cache_root=root, readonly_caches=ro or None,
-                                   propagate_rerun=step["prop"]) as sub:
+                    wk = {"worker": "cf", "n_procs": 2} if step.get("worker") == "cf" else {"worker": "debug"}
+                    with Submitter(cache_root=root, readonly_caches=ro or None,
+                                   propagate_rerun=step["prop"], **wk) as sub:
                         res = sub(task, rerun=step["rerun"], hooks=hooks,
                                   raise_errors=(False if how == "noraise" else None))
                     errored = bool(res.errored)
@@ -414,7 +418,7 @@ def run_batches(histories, module="harness.c11", par=6, timeout=1500):
 
 # ---- generation ---------------------------------------------------------------------------------
 def gen_history(rng, pool=POOL, nlocs=3, flaky_p=0.35, kinds=("empty", "jobonly", "zero"), nflaky=(0, 1, 1, 2),
-                p_plant=0.18, p_rerun=0.3):
+                p_plant=0.18, p_rerun=0.3, p_cf=0.25):
     univ = pool.universe()
     leaves = [d for d in univ if pool.is_leaf(d)]
     n = rng.choice([3, 4, 5, 6, 7, 8, 8])
@@ -437,8 +441,14 @@ def gen_history(rng, pool=POOL, nlocs=3, flaky_p=0.35, kinds=("empty", "jobonly"
         prop = rng.random() < 0.6
         how = "call" if (prop and rng.random() < 0.4) else rng.choice(["submit", "submit", "noraise"])
         fail = [d for d in flaky if rng.random() < flaky_p]
+        worker = "debug"
+        if rng.random() < p_cf:
+            # the pool worker: nodes run concurrently in other processes, nested workflows in this one
+            # (expand_workflow_async).  Failing bodies are kept to the sequential worker: with a failure the
+            # async expansion goes on with the independent nodes, which the sequential model does not describe.
+            worker, how, fail = "cf", "submit", []
         steps.append({"op": "submit", "desc": rng.choice(focus), "root": root, "ro": ro, "rerun": rerun,
-                      "prop": prop, "how": how, "fail": fail})
+                      "prop": prop, "how": how, "fail": fail, "worker": worker})
     return {"universe": univ, "nlocs": nlocs, "steps": steps}
 
 
@@ -475,8 +485,13 @@ def res_term(rep, intern):
     return "(Ok %d)" % intern(rep[1]) if rep[0] == "ok" else "Err"
 
 
-def parse_log(lines, cs2id):
-    """hook log -> events in completion order: ("hit", id) | ("run", id, errored); plus body executions"""
+def parse_log(lines, cs2id, concurrent=False):
+    """hook log -> events ("hit", id) | ("run", id, errored, outputs), plus the body executions.
+    Sequential worker: jobs nest, events are in completion order (a hit counts at its entry).
+    Pool worker: lines of concurrently running jobs interleave; they are matched per checksum, executions are
+    emitted at their END line, hits at their ENTER line."""
+    if concurrent:
+        return parse_log_concurrent(lines, cs2id)
     events, bodies, stack = [], [], []
 
     def flush_hit():
@@ -503,6 +518,32 @@ def parse_log(lines, cs2id):
     flush_hit()
     assert not stack, ("unfinished job in log", lines)
     return events, bodies
+
+
+def parse_log_concurrent(lines, cs2id):
+    bodies, slots, open_ = [], [], {}      # slots: position -> event or None; open_: cs -> [slot index, started]
+    for ln in lines:
+        tag, _, rest = ln.partition(" ")
+        if tag == "BODY":
+            bodies.append(json.loads(rest))
+        elif tag == "ENTER":
+            slots.append(None)
+            open_.setdefault(rest, []).append([len(slots) - 1, False])
+        elif tag == "START":
+            cand = [e for e in open_.get(rest, []) if not e[1]]
+            assert cand, ("START without ENTER", lines)
+            cand[0][1] = True
+        elif tag == "END":
+            cs, err, outs = rest.split(" ", 2)
+            cand = [e for e in open_.get(cs, []) if e[1]]
+            assert cand, ("END without START", lines)
+            open_[cs].remove(cand[0])
+            slots.append(("run", cs2id.get(cs, -1), err == "1", json.loads(outs)))
+    for cs, ents in open_.items():
+        for pos, started in ents:
+            assert not started, ("unfinished job in log", lines)
+            slots[pos] = ("hit", cs2id.get(cs, -1))
+    return [e for e in slots if e is not None], bodies
 
 
 def store_table(snap, cs2id):
@@ -541,34 +582,40 @@ Definition store_eqb (u : univ) (a b : store) : bool :=
 (* one observed step: universe, failing identities, value table, store before, the step, and
    what was observed: events, reported, store after, raw digests of non-root locations unchanged *)
 Definition case_t := (univ * list nat * list (nat * nat) * list (nat * nat * dir) * step *
-                      list event * res * list (nat * nat * dir) * bool)%type.
+                      list event * res * list (nat * nat * dir) * bool * bool)%type.
+(* pool worker: independent nodes complete in any order, the events are compared as multisets *)
+Definition ev_bag_eqb (a b : list event) : bool :=
+  let ea := map erase a in let eb := map erase b in
+  let eqp := fun x y : nat * nat => Nat.eqb (fst x) (fst y) && Nat.eqb (snd x) (snd y) in
+  Nat.eqb (List.length ea) (List.length eb) &&
+  forallb (fun x => Nat.eqb (List.length (filter (eqp x) ea)) (List.length (filter (eqp x) eb))) ea.
 Definition mkstate (pre : list (nat * nat * dir)) : state := {| st := lookup_dir pre; execs := fun _ => 0; clock := 0 |}.
 Definition tie_ok (c : case_t) : bool :=
-  let '(u, fails, vals, pre, x, evs, rep, post, raw) := c in
+  let '(u, fails, vals, pre, x, evs, rep, post, raw, ordered) := c in
   match x with
   | Submit sub =>
       let '(s1, mevs, mrep) := submit (mkworld fails vals) (s_cfg sub) (s_rerun sub) (s_task sub) (mkstate pre) in
-      ev_list_eqb mevs evs && res_eqb mrep rep && store_eqb u (st s1) (lookup_dir post)
+      (if ordered then ev_list_eqb mevs evs else ev_bag_eqb mevs evs) && res_eqb mrep rep && store_eqb u (st s1) (lookup_dir post)
   | Plant l c => store_eqb u (st (plant (mkstate pre) l c)) (lookup_dir post)
   end.
 Definition mkobs (c : case_t) (sub : submission) : observed :=
-  let '(u, fails, vals, pre, x, evs, rep, post, raw) := c in
+  let '(u, fails, vals, pre, x, evs, rep, post, raw, ordered) := c in
   {| o_pre := lookup_dir pre; o_sub := sub; o_events := evs; o_reported := rep; o_post := lookup_dir post |}.
 Definition spec_ok (c : case_t) : bool :=
-  let '(u, fails, vals, pre, x, evs, rep, post, raw) := c in
+  let '(u, fails, vals, pre, x, evs, rep, post, raw, ordered) := c in
   match x with
   | Submit sub => step_spec_core_b u (mkobs c sub) && raw && wf_taskb (s_task sub)
   | Plant l c0 => true
   end.
 Definition reuse_ok (c : case_t) : bool :=
-  let '(u, fails, vals, pre, x, evs, rep, post, raw) := c in
+  let '(u, fails, vals, pre, x, evs, rep, post, raw, ordered) := c in
   match x with Submit sub => reuse_b (mkobs c sub) | Plant _ _ => true end.
 (* classifiers of the reuse failures *)
 Definition not_errored_shadow (c : case_t) : bool :=
-  let '(u, fails, vals, pre, x, evs, rep, post, raw) := c in
+  let '(u, fails, vals, pre, x, evs, rep, post, raw, ordered) := c in
   match x with Submit sub => negb (errored_shadow (lookup_dir pre) (tid (s_task sub)) (all_caches (s_cfg sub))) | _ => true end.
 Definition not_leftover_shadow (c : case_t) : bool :=
-  let '(u, fails, vals, pre, x, evs, rep, post, raw) := c in
+  let '(u, fails, vals, pre, x, evs, rep, post, raw, ordered) := c in
   match x with Submit sub => negb (leftover_shadow (lookup_dir pre) (tid (s_task sub)) (all_caches (s_cfg sub))) | _ => true end.
 """
 
@@ -600,7 +647,7 @@ def build_cases(histories, observations, pool=POOL):
             if unk:
                 problems.append((info, unk, "unexpected entry in a cache location after the step"))
             try:
-                events, bodies = parse_log(so["log"], cs2id)
+                events, bodies = parse_log(so["log"], cs2id, concurrent=step.get("worker") == "cf")
             except AssertionError as e:
                 problems.append((info, repr(e), "hook log is not well nested"))
                 before = so["after"]
@@ -651,9 +698,9 @@ def build_cases(histories, observations, pool=POOL):
                     problems.append((info, {"bodies": bodies, "hook_runs": leaf_runs},
                                      "body execution counter disagrees with the executions reported by the hooks"))
             fails = coqio.lst([str(idx(d)) for d in step.get("fail", [])])
-            cases.append("(%s, %s, %s, %s, %s, %s, %s, %s, %s)" % (
+            cases.append("(%s, %s, %s, %s, %s, %s, %s, %s, %s, %s)" % (
                 u, fails, coqio.lst(["(%d, %d)" % p for p in vals]), table_term(pre_tab, intern), st, evs, rep,
-                table_term(post_tab, intern), coqio.boolean(raw_same)))
+                table_term(post_tab, intern), coqio.boolean(raw_same), coqio.boolean(step.get("worker") != "cf")))
             meta.append(info)
             before = so["after"]
     return cases, meta, problems
@@ -681,7 +728,7 @@ def describe(m):
     return {"steps": m["steps_so_far"], "step_index": m["step"]}
 
 
-def run(ctx, prop="C11", pool=POOL, gen=gen_history, rule=None, budget=(40, 250)):
+def run(ctx, prop="C11", pool=POOL, gen=gen_history, rule=None, budget=(60, 300)):
     rng = ctx.rng
     os.makedirs(ctx.scratch.dir, exist_ok=True)   # the runner's widened context shares (and removes) this directory
     n = ctx.budget(*budget)
@@ -703,7 +750,8 @@ def run(ctx, prop="C11", pool=POOL, gen=gen_history, rule=None, budget=(40, 250)
     seen = set()
     dist = {"histories": len(histories), "steps": len(cases), "submit": 0, "plant": 0, "rerun": 0, "no_propagate": 0,
             "with_readonly": 0, "failing_body_planned": 0, "hits_top": 0, "executions": 0, "errors_reported": 0,
-            "workflow_submissions": 0, "pre_store_nonempty": 0, "how_call": 0, "how_noraise": 0}
+            "workflow_submissions": 0, "pre_store_nonempty": 0, "how_call": 0, "how_noraise": 0, "worker_cf": 0,
+            "worker_cf_nested_workflow_rerun": 0}
     for m in meta:
         op = m["op"]
         if op["op"] == "plant":
@@ -720,6 +768,9 @@ def run(ctx, prop="C11", pool=POOL, gen=gen_history, rule=None, budget=(40, 250)
         dist["errors_reported"] += m["reported"][0] == "err"
         dist["how_call"] += op["how"] == "call"
         dist["how_noraise"] += op["how"] == "noraise"
+        dist["worker_cf"] += op.get("worker") == "cf"
+        dist["worker_cf_nested_workflow_rerun"] += (op.get("worker") == "cf" and op["rerun"] and
+                                                    any(pool.children(c) for c in pool.children(op["desc"])))
         if m["pre"]:
             dist["pre_store_nonempty"] += 1
             key = json.dumps([m["pre"], op], sort_keys=True)
@@ -763,17 +814,17 @@ def run(ctx, prop="C11", pool=POOL, gen=gen_history, rule=None, budget=(40, 250)
 def explain(ctx, case, kind):
     """model / spec values for one case, for the replay file"""
     try:
-        terms = ["""let '(u, fails, vals, pre, x, evs, rep, post, raw) := %s in
+        terms = ["""let '(u, fails, vals, pre, x, evs, rep, post, raw, ordered) := %s in
                  match x with
                  | Submit sub => let '(s1, mevs, mrep) := submit (mkworld fails vals) (s_cfg sub) (s_rerun sub) (s_task sub) (mkstate pre) in
                                  (map erase mevs, mrep, map (fun l => map (fun c => (l, c, st s1 l c)) (snd u)) (fst u))
                  | Plant l c => ([], Err, map (fun l' => map (fun c' => (l', c', st (plant (mkstate pre) l c) l' c')) (snd u)) (fst u))
                  end""" % case]
         if kind == "spec":
-            terms.append("""let c := %s in let '(u, fails, vals, pre, x, evs, rep, post, raw) := c in
+            terms.append("""let c := %s in let '(u, fails, vals, pre, x, evs, rep, post, raw, ordered) := c in
                  match x with Submit sub => let o := mkobs c sub in
-                   [("once", once_b o); ("rerun", rerun_b o); ("readonly", readonly_b u o && raw); ("written", written_b u o);
-                    ("not_served", not_served_b o); ("reported", reported_b o); ("reuse", reuse_b o)]
+                   [("once"%%string, once_b o); ("rerun"%%string, rerun_b o); ("readonly"%%string, readonly_b u o && raw); ("written"%%string, written_b u o);
+                    ("not_served"%%string, not_served_b o); ("reported"%%string, reported_b o); ("reuse"%%string, reuse_b o)]
                  | _ => [] end""" % case)
         vals = coqio.eval_terms(ctx.scratch, "explain%d" % abs(hash(case)), IMPORTS, terms, extra=EXTRA)
         return {"model (events as (id, 0 hit|1 ok|2 err), reported, store)": vals[0],
